@@ -16,8 +16,9 @@ from ..vloop import VLoop
 
 
 class Reply:
-    def __init__(self, status, content_type, body, raised=None):
+    def __init__(self, status, content_type, body, raised=None, raw_content_type=None):
         self.status = status
+        self.raw_content_type = raw_content_type      # the Content-Type header as sent, or None
         self.content_type = content_type      # media type without parameters, lower case, or None
         self.body = body                      # bytes
         self.raised = raised
@@ -104,7 +105,7 @@ class Integration:
                 r = self.client.post(path, data=body, headers=headers)
             except Exception as e:   # noqa - an exception escaping the WSGI app is not an HTTP reply
                 return Reply(None, None, b'', raised='%s: %s' % (type(e).__name__, e))
-            return Reply(r.status_code, media(r.headers.get('Content-Type')), r.get_data())
+            return Reply(r.status_code, media(r.headers.get('Content-Type')), r.get_data(), raw_content_type=r.headers.get('Content-Type'))
         return self._post_aiohttp(path, body, headers)
 
     def _post_aiohttp(self, path, body, headers):
@@ -131,4 +132,4 @@ class Integration:
         finally:
             loop.close()
         body = resp.body if isinstance(getattr(resp, 'body', None), (bytes, bytearray)) else (resp.text or '').encode()
-        return Reply(resp.status, media(resp.headers.get('Content-Type')) if resp.body else media(resp.headers.get('Content-Type')), bytes(body or b''))
+        return Reply(resp.status, media(resp.headers.get('Content-Type')), bytes(body or b''), raw_content_type=resp.headers.get('Content-Type'))
